@@ -124,6 +124,32 @@ def judge(kind, cards, style, audit_type, thr, feats=None):
     return out, (d.tolist(), float(u))
 
 
+def judge_tiny_margin(kind, audit_type, margin):
+    """a margin set by hand (as from a tally of a very large, very close contest): set_p_values must install exactly
+    2/(2 - v/u_a) over whatever bound the test held before, and an understated card's datum equals that bound"""
+    cards = [("lose", "win", None, False), ("win", "win", None, False)]
+    w = s3.workflow(kind, cards, True, audit_type=audit_type)
+    asn, con, cvrs, mvrs = w["asn"], w["con"], w["cvrs"], w["mvrs"]
+    ua = asn.assorter.upper_bound
+    asn.margin = margin
+    asn.test.u = ua
+    con.sample_threshold = 2
+    try:
+        with contextlib.redirect_stdout(io.StringIO()), warnings.catch_warnings():
+            warnings.simplefilter("ignore")
+            d, u = asn.mvrs_to_data(mvrs, cvrs)
+            Assertion.set_p_values({s3.CID: con}, mvrs, cvrs)
+    except Exception as e:  # noqa
+        return [(f"C06|{kind}|{audit_type}|set_p_values-exception|{type(e).__name__}", f"margin {margin}: {type(e).__name__}: {str(e)[:80]}")]
+    want_u = 2 / (2 - margin / ua)
+    out = []
+    if asn.test.u != want_u and abs(asn.test.u - want_u) > 1e-15 * want_u:
+        out.append((f"C06|{kind}|{audit_type}|u-installed-in-test", f"margin {margin}: assertion.test.u = {asn.test.u!r} after set_p_values, expected {want_u!r}"))
+    if len(d) and max(d) > asn.test.u:
+        out.append((f"C06|{kind}|{audit_type}|datum-above-test-u", f"margin {margin}: datum {max(d)!r} exceeds the bound {asn.test.u!r} the test was told"))
+    return out
+
+
 def judge_multi(cards, style, audit_type):
     """a plurality contest with its two assertions (A v B, A v C: different margins, different bounds): after
     set_p_values every assertion's own test holds that assertion's own u, and its data lie below it"""
@@ -180,6 +206,17 @@ def run_multi(sh, rec):
 
 
 def run_shard(sh, rec):
+    if sh[0] == "tiny":
+        for kind in KINDS:
+            for at in (Audit.AUDIT_TYPE.CARD_COMPARISON, Audit.AUDIT_TYPE.ONEAUDIT):
+                for margin in (1e-3, 1e-5, 3e-6, 1e-6, 1e-9, 1e-12):
+                    rec.state()
+                    rec.trans()
+                    rec.evals(2)
+                    rec.vac("tiny_margin_cases")
+                    for key, what in judge_tiny_margin(kind, at, margin):
+                        rec.violate(key, what, {"tiny": True, "kind": kind, "audit_type": at, "margin": margin})
+        return
     if sh[0] == "multi":
         return run_multi(sh, rec)
     kind, n, first, reduced, last = sh
@@ -220,6 +257,7 @@ def explore(tier, seed):
         for n in range(pl["full"] + 1, pl["reduced"] + 1):
             for first in range(len(s3.alphabet(fam, True))):
                 sh.append((kind, n, first, True, n == pl["reduced"]))
+    sh.append(("tiny",))
     for n in (1, 2):
         for first in range(len(s3.alphabet("plurality"))):
             sh.append(("multi", n, first))
@@ -227,6 +265,8 @@ def explore(tier, seed):
 
 
 def run_case(case):
+    if case.get("tiny"):
+        return judge_tiny_margin(case["kind"], case["audit_type"], case["margin"])
     if case.get("multi"):
         return judge_multi([tuple(c) for c in case["cards"]], case["style"], case["audit_type"])[0]
     return judge(case["kind"], [tuple(c) for c in case["cards"]], case["style"], case["audit_type"], case["thr"])[0]
